@@ -271,6 +271,11 @@ def judge(h, cases, impl_obs, model_obs, known):
                 e = "<unencodable %r>" % (obs,)
             if model_obs[i] == "bad-op":
                 bad_ops.append(c)
+            elif hasattr(h, "compare"):
+                # property-specific comparison (e.g. a float result against the model's exact rational within the
+                # property's own tolerance); must return True when the two observations agree
+                if not h.compare(c, obs, model_obs[i]):
+                    mismatches.append((c, obs, model_obs[i]))
             elif model_obs[i] != e:
                 mismatches.append((c, obs, model_obs[i]))
     return violations, known_hits, mismatches, bad_ops
